@@ -620,16 +620,16 @@ func (c *canonCtx) v(v *ds.VMValue) string {
 			return "<cycle>"
 		}
 		c.on[dd] = true
-		m := map[string]string{}
-		dd.Dict.Range(func(k string, e *ds.VMValue) bool { m[k] = c.v(e); return true })
+		ents := map[string]*ds.VMValue{}
+		dd.Dict.Range(func(k string, e *ds.VMValue) bool { ents[k] = e; return true })
 		keys := []string{}
-		for k := range m {
+		for k := range ents {
 			keys = append(keys, k)
 		}
 		sort.Strings(keys)
 		parts := []string{}
 		for _, k := range keys {
-			parts = append(parts, strconv.Quote(k)+":"+m[k])
+			parts = append(parts, strconv.Quote(k)+":"+c.v(ents[k])) // rendered in key order, not map order
 		}
 		delete(c.on, dd)
 		s := "{" + strings.Join(parts, ",") + "}"
